@@ -482,7 +482,7 @@ def mutate_args(r, base_args, options):
                       "--write-gc-stats=", "--push-state", "--pop-state", "--start-lib", "--end-lib", "--start-group", "--end-group"])
         v = r.choice(["", "x", "0", "max-page-size=0", "max-page-size=3", "max-page-size=18446744073709551615", "stack-size=-1",
                       "a=", "=1", "a=b+", "a=0x" + "f" * 20, ".text=", ".text=zz", "1,2,3,4,5", ",,,", "99999999999", "-5",
-                      "/nonexistent/x", ".", "/", "/dev/null", "/dev/zero", "/proc/self/mem", "é", "a" * 5000])
+                      "/nonexistent/x", ".", "/", "/dev/null", "é", "a" * 5000])
         if k.endswith("=") or k in ("-l", "-l:", "-L"):
             a.insert(r.randrange(len(a) + 1), k + v)
         elif k in ("--push-state", "--pop-state", "--start-lib", "--end-lib", "--start-group", "--end-group"):
@@ -506,12 +506,14 @@ def mutate_args(r, base_args, options):
         r.shuffle(a)
         return a, "args:shuffle"
     if c < 0.95:
-        return a + [r.choice(["/dev/null", "/dev/zero", ".", "/", "s.lds", "v.ver", "base-exe-obj.out", "a.rsp", "libs.so", "libs.so"])], \
+        return a + [r.choice(["/dev/null", ".", "/", "s.lds", "v.ver", "base-exe-obj.out", "a.rsp", "libs.so", "libs.so"])], \
             "args:odd-input-file"
     return [], "args:empty"
 
 
 def apply(data, mut):
+    if isinstance(mut, tuple) and mut and mut[0] == "truncate":
+        return bytes(data[:mut[1]])
     if isinstance(mut, (bytes, bytearray)):
         return bytes(mut)
     b = bytearray(data)
@@ -553,7 +555,7 @@ def gen_case(r, base, cmds, options):
     fname, kind = r.choice(TARGETS[cname])
     data = read(os.path.join(base, fname))
     nmut = r.choice([1, 1, 1, 2, 3])
-    classes = []
+    muts = []
     cur = data
     for _ in range(nmut):
         if kind in ("obj", "so"):
@@ -567,18 +569,26 @@ def gen_case(r, base, cmds, options):
                                                   "rsp": "response-file"}[kind])
             m = t.encode("latin1", "replace")
         cur = apply(cur, m)
-        classes.append(("so:" if kind == "so" else "") + cls)
+        muts.append((m, ("so:" if kind == "so" else "") + cls))
     if r.random() < 0.1 and kind in ("obj", "so", "ar"):
         cut = r.randrange(len(cur))
-        cur = cur[:cut]
-        classes.append("truncate")
+        muts.append((("truncate", cut), "truncate"))
+        cur = apply(cur, ("truncate", cut))
     extra = []
     if r.random() < 0.3:
         extra = [r.choice(["--gc-sections", "--no-gc-sections", "-s", "--strip-debug", "--build-id=sha1", "--eh-frame-hdr",
                            "-z now", "--hash-style=both", "--icf=all", "--no-string-merge", "-z pack-relative-relocs",
                            "--export-dynamic", "--as-needed", "-Bsymbolic", "--emit-relocs", "--relax"])]
         extra = extra[0].split(" ")
-    return dict(cmd=cname, args=args + extra, files={fname: cur}, cls="+".join(sorted(set(classes))), orig=data, fname=fname)
+    return dict(cmd=cname, args=args + extra, files={fname: cur}, cls="+".join(sorted(set(c for _, c in muts))), orig=data,
+                fname=fname, muts=muts)
+
+
+def rebuild(case, muts):
+    cur = case["orig"]
+    for m, _ in muts:
+        cur = apply(cur, m)
+    return dict(case, muts=muts, files={case["fname"]: cur}, cls="+".join(sorted(set(c for _, c in muts))))
 
 
 def materialise(ctx, base, case, tag):
@@ -623,20 +633,37 @@ def run_and_classify(d, args, fork=False, threads=1, kind="input"):
 
 
 def minimise(ctx, base, case, sig, tag):
-    """Drops patches / arguments while the signature persists. Returns the reduced case."""
+    """Drops arguments and mutations while the signature persists. Returns the reduced case."""
     best = dict(case)
     n = [0]
+    hang = sig.startswith("hang:")
 
     def still(c):
         n[0] += 1
         d = materialise(ctx, base, c, f"{tag}-m{n[0]}")
-        (v, s, _), _ = run_and_classify(d, c["args"])
+        if hang:
+            res = run_wild(d, list(c["args"]) + ["-o", "out.bin"], timeout=20, threads=1)
+            ok = res.timed_out
+        else:
+            (v, s, _), _ = run_and_classify(d, c["args"])
+            ok = s == sig
         shutil.rmtree(d, ignore_errors=True)
-        return s == sig
-    # 1. fewer arguments
+        return ok
+    # 1. fewer mutations
+    muts = list(best.get("muts") or [])
+    i = 0
+    while len(muts) > 1 and i < len(muts):
+        trial = muts[:i] + muts[i + 1:]
+        c = rebuild(best, trial)
+        if still(c):
+            muts = trial
+            best = c
+        else:
+            i += 1
+    # 2. fewer arguments
     args = list(best["args"])
     i = 0
-    while i < len(args) and n[0] < 40:
+    while i < len(args) and n[0] < (14 if hang else 40):
         trial = args[:i] + args[i + 1:]
         c = dict(best, args=trial)
         if trial and still(c):
@@ -644,31 +671,6 @@ def minimise(ctx, base, case, sig, tag):
             best = c
         else:
             i += 1
-    # 2. fewer differing bytes against the original file
-    if "orig" in best and len(best["files"]) == 1:
-        fname = best["fname"]
-        cur = best["files"][fname]
-        orig = best["orig"]
-        if len(cur) == len(orig):
-            diffs = [k for k in range(len(cur)) if cur[k] != orig[k]]
-            # group consecutive bytes
-            groups = []
-            for k in diffs:
-                if groups and k - groups[-1][-1] <= 1:
-                    groups[-1].append(k)
-                else:
-                    groups.append([k])
-            for g in list(groups):
-                if len(groups) <= 1 or n[0] > 60:
-                    break
-                t = bytearray(cur)
-                for k in g:
-                    t[k] = orig[k]
-                c = dict(best, files={fname: bytes(t)})
-                if still(c):
-                    cur = bytes(t)
-                    best = c
-                    groups.remove(g)
     return best
 
 
@@ -694,11 +696,13 @@ def report(ctx, base, case, sig, detail, cid, d):
     ctx.note_set("crash-classes:" + sig, case["cls"])
     if not first:
         return
+    small = minimise(ctx, base, case, sig, cid)
+    md = materialise(ctx, base, small, f"{cid}-final")
     if sig.startswith("hang:"):
-        small, md, det2 = case, d, detail
+        det2 = detail
+        if small.get("muts") and not small["cls"].startswith("text."):
+            sig = sig + ":" + small["cls"]
     else:
-        small = minimise(ctx, base, case, sig, cid)
-        md = materialise(ctx, base, small, f"{cid}-final")
         (v, s2, det2), res = run_and_classify(md, small["args"])
         if s2 != sig:
             small, md, det2 = case, d, detail
@@ -769,6 +773,8 @@ def replay_pinned(ctx, base, name):
         with _lock:
             SEEN[sig] = SEEN.get(sig, 0) + 1
         ctx.note("crash:" + sig)
+        if sig.startswith("hang:") and str(meta.get("expect", "")).startswith(sig):
+            sig = meta["expect"]
         if sig != meta.get("expect"):
             ctx.note(f"pinned-signature-changed:{meta.get('expect')}->{sig}")
         head = "\n".join(detail.strip().split("\n")[:3])[:300]
